@@ -135,6 +135,43 @@ def flag_consistency(rep, name, ty, fn, ev, r, stats):
                     return
 
 
+def consistent_values_accepted(rep, name, ty, fn, ev, r, stats, prop="C02"):
+    """C02 clause: a value whose optional fields are consistent must not be rejected with
+    InconsistentConditionValue.  All presence assignments over ALL optional fields of the declaration are enumerated;
+    for the assignments the reference calls consistent (per flag, one flag value explains every field's presence),
+    no InconsistentConditionValue check may evaluate to true."""
+    import itertools
+    from .. import rslayout
+    if r is None or ty not in r.decls:
+        return
+    own_fn = "encode_partial" if r.decls[ty].parent else "encode"
+    if fn != own_fn:
+        return
+    flags = {}
+    for f in r.inlined(ty):
+        if f.cond is not None:
+            flags.setdefault(f.cond[0], []).append((f.name, f.cond[1]))
+    fields = [o[0] for opts in flags.values() for o in opts]
+    if not fields or len(fields) > 10:
+        return
+    icv = [e for e in rslayout.walk(ev.events) if e.kind == "check" and e.ret is not None
+           and rslayout._err_variant(e.ret) == "InconsistentConditionValue"]
+    stats["icv_checks"] = stats.get("icv_checks", 0) + len(icv)
+    for combo in itertools.product([False, True], repeat=len(fields)):
+        assign = dict(zip(fields, combo))
+        consistent = all(any(all(assign[n_] == (val == v) for n_, v in opts) for val in (0, 1)) for opts in flags.values())
+        if not consistent:
+            continue
+        stats["consistent_cells"] = stats.get("consistent_cells", 0) + 1
+        for c in icv:
+            if eval_cond(c.cond, assign) is True:
+                pres = ", ".join(f"{k}={'Some' if v else 'None'}" for k, v in assign.items())
+                rep.add(f"{prop}|rust|{fn}|consistent-value-rejected", f"{ty}: the presence pattern {{{pres}}} is consistent "
+                        f"(every flag has a value that explains all of its optional fields) but encode returns "
+                        f"InconsistentConditionValue", f"{name}:{ty}::{fn}")
+                return
+
+
 def iter_ite(e):
     from ..sym import E as _E
     if e.op == "ite":
